@@ -271,6 +271,31 @@ func VerifC14_TwoSeries() {
 	}
 }
 
+// VerifC14_Retried: the same round trip when attempts may fail first (symbolic outcome per
+// attempt: delivered, connection error, 503; at most three attempts): whenever the batch is
+// delivered, what the ingesting server dispatches equals what the forwarder was given - a
+// retry carries the data, not an empty or partial body.
+func VerifC14_Retried() {
+	compress, ct := verifCompression()
+	hfh, up := verifNewForwarder(true, 3, compress, ct, 30*time.Second)
+	// (a small map: one series of each type with symbolic payloads; the shapes are VerifC14_Metrics' subject)
+	mm := gostatsd.NewMetricMap(false)
+	mm.Counters["c"] = map[string]gostatsd.Counter{"k": {Value: nondetInt64(), Source: "h"}}
+	mm.Gauges["g"] = map[string]gostatsd.Gauge{"k": {Value: nondetFloat64(), Tags: gostatsd.Tags{"a:b"}}}
+	mm.Timers["t"] = map[string]gostatsd.Timer{"k": {Values: []float64{nondetFloat64()}, SampledCount: 1}}
+	mm.Sets["s"] = map[string]gostatsd.Set{"k": {Values: map[string]struct{}{verifAsciiString(1): {}}}}
+	hfh.postMetrics(context.Background(), mm, "", 7)
+	if up.delivered > 0 {
+		verifAssert(up.delivered == 1 && len(up.rec.maps) == 1, "a delivered batch is dispatched by the ingesting server exactly once")
+		if len(up.rec.maps) == 1 {
+			verifCheckDecoded(mm, up.rec.maps[0])
+		}
+		if up.attempts > 1 {
+			verifReach("delivered-on-retry")
+		}
+	}
+}
+
 // VerifC14_Event: an event through the forwarder and the ingesting server.
 func VerifC14_Event() {
 	compress, ct := verifCompression()
